@@ -55,7 +55,8 @@ CLAIMED = {
              "range / mean / deviation, categorical columns untouched, missing -> 0 and ignored, variance >= 0 (why the clamp is sound) and the n-dimensional "
              "affine up-scaling theorem W'x + b' = upscale_t(W scale_x(x) + b) for all 4x4 mode pairs are proved in Lean 4 over any ordered field (14 theorems); "
              "bit-exact correspondence of stats.cpp (statistics, scale, upscale, affine conversion, iterators) at Float, Eigen products within 1e-12 of the summed terms; "
-             "independent oracle with exact rational statistics.",
+             "independent oracle with exact rational statistics. "
+             "Gap-closing round (24 further theorems, 38 in all): the per-column update / done of stats.cpp (the N > 1 split, the four max(., eps) guards, the N = 0 and mask resets), nan2zero, the scale / upscale switches, make_scaling and the epsilon constant are RE-TRANSLATED from the source on every run (Gen/ScalingGuards.lean) and the model's text is proved to be the generated one (rfl, any scalar type); div_mul_one over the WHOLE case split of done (masked, N = 0, N = 1, N >= 2 with range or deviation below / at / above epsilon: every product is 1 and every multiplier positive), the one-pass variance equals the two-pass one exactly, flatten columns of single- / multi-label features are never rescaled whatever the data, structured targets are scaled component-wise (4-D overloads, round trip), make_targets_stats / make_feature_stats guards, class statistics (hash table sorted, counts, positive weights). The generator decides every regime boundary exactly in Float (range or deviation = eps, eps +- 1 ulp, N = 0..3).",
         note=NOTE_COMMON + "sqrt enters the proofs as a value sd >= 0 with sd*sd = var; linear_t::fit itself is not executed (only its scaling-related calls)."),
     "C09": dict(
         category="proof", technique=TECH, design="DESIGN.md §4 C09",
